@@ -33,11 +33,16 @@ func (p *partDisk) Writer() io.WriteSeeker {
 
 // Reader implements Part.
 func (p *partDisk) Reader() (io.ReadCloser, error) {
+	p.s.mutex.RLock()
+	buffer := p.buffer
+	size := p.size
+	p.s.mutex.RUnlock()
+
 	// read from RAM if possible
-	if p.buffer != nil {
-		return io.NopCloser(bytes.NewReader(p.buffer.Bytes())), nil
+	if buffer != nil {
+		return io.NopCloser(bytes.NewReader(buffer.Bytes())), nil
 	}
 
 	// read from disk
-	return newDiskPartReader(p.s.fpath, p.offset, p.size)
+	return newDiskPartReader(p.s.fpath, p.offset, size)
 }
